@@ -58,10 +58,15 @@ def sRecRes : Res Bytes → String
   | .err => "err"
   | .panic => "panic"
 
+/-- `<functionality>` or `<functionality>e` (the usage list is an empty but non-nil slice) -/
+def pFn (s : String) : Option (Int × Bool) :=
+  if s.endsWith "e" then (s.dropEnd 1).toString.toInt?.map (·, true) else s.toInt?.map (·, false)
+
 def recberOp : Tok → String
   | [nfid, ot, fn, rec] =>
-    (match bytesOfHex nfid, bytesOfHex ot, fn.toInt?, pRecord rec with
-     | some nfid, some ot, some fn, some r => sRecRes (recordBytes { nfId := nfid, openTime := ot, functionality := fn } r)
+    (match bytesOfHex nfid, bytesOfHex ot, pFn fn, pRecord rec with
+     | some nfid, some ot, some (fn, el), some r =>
+       sRecRes (recordBytes { nfId := nfid, openTime := ot, functionality := fn, emptyList := el } r)
      | _, _, _, _ => "bad-op")
   | _ => "bad-op"
 
@@ -71,9 +76,9 @@ def pRecUsages (u : String) : Option (List RecUsage) :=
 /-- the guard of ChargingDataUpdate on the record the session writes to and the request's usage -/
 def recguardOp : Tok → String
   | [nfid, ot, fn, rec, rq] =>
-    (match bytesOfHex nfid, bytesOfHex ot, fn.toInt?, pRecord rec, pRecUsages rq with
-     | some nfid, some ot, some fn, some r, some us =>
-       let e : RecEnv := { nfId := nfid, openTime := ot, functionality := fn }
+    (match bytesOfHex nfid, bytesOfHex ot, pFn fn, pRecord rec, pRecUsages rq with
+     | some nfid, some ot, some (fn, el), some r, some us =>
+       let e : RecEnv := { nfId := nfid, openTime := ot, functionality := fn, emptyList := el }
        s!"pre={lenOf (recordBytes e r)} chg={if us.isEmpty then 0 else lenOf (chgBytesR us)} split={if berGuardR e r us then 1 else 0}"
      | _, _, _, _, _ => "bad-op")
   | _ => "bad-op"
